@@ -1,6 +1,9 @@
 package server
 
 import (
+	api "github.com/osrg/gobgp/v4/api"
+	"github.com/osrg/gobgp/v4/pkg/apiutil"
+	"github.com/osrg/gobgp/v4/pkg/packet/bgp"
 	"github.com/osrg/gobgp/v4/internal/pkg/table"
 	"github.com/osrg/gobgp/v4/pkg/config/oc"
 )
@@ -50,5 +53,69 @@ func VH_c18_statement_roundtrip() {
 	vAssert(got.Conditions.BgpConditions.LocalPrefEq == want.Conditions.BgpConditions.LocalPrefEq, "the LOCAL_PREF condition changes in the API round trip")
 	vAssert(got.Conditions.BgpConditions.MedEq == want.Conditions.BgpConditions.MedEq, "the MED condition changes in the API round trip")
 	vAssert(got.Conditions.BgpConditions.OriginEq == want.Conditions.BgpConditions.OriginEq, "the ORIGIN condition changes in the API round trip")
+	vReach("end")
+}
+
+// C18 (neighbour configuration): an API peer whose families carry different optional settings
+// converts to the native configuration family by family: what one family omits is the default,
+// not what an earlier family set; what a family sets arrives unchanged.
+func VH_c18_neighbor_families() {
+	sendMax, maxPfx, llgrTime := vU8("send_max"), vU32("max_prefixes"), vU32("llgr_time")
+	full := &api.AfiSafi{
+		Config:                   &api.AfiSafiConfig{Family: &api.Family{Afi: api.Family_AFI_IP, Safi: api.Family_SAFI_UNICAST}, Enabled: true},
+		MpGracefulRestart:        &api.MpGracefulRestart{Config: &api.MpGracefulRestartConfig{Enabled: true}},
+		AddPaths:                 &api.AddPaths{Config: &api.AddPathsConfig{Receive: true, SendMax: uint32(sendMax)}},
+		PrefixLimits:             &api.PrefixLimit{MaxPrefixes: maxPfx, ShutdownThresholdPct: 80},
+		LongLivedGracefulRestart: &api.LongLivedGracefulRestart{Config: &api.LongLivedGracefulRestartConfig{Enabled: true, RestartTime: llgrTime}},
+		ApplyPolicy:              &api.ApplyPolicy{ImportPolicy: &api.PolicyAssignment{DefaultAction: api.RouteAction_ROUTE_ACTION_REJECT, Policies: []*api.Policy{{Name: "p1"}}}},
+	}
+	bare := &api.AfiSafi{Config: &api.AfiSafiConfig{Family: &api.Family{Afi: api.Family_AFI_IP6, Safi: api.Family_SAFI_UNICAST}, Enabled: true}}
+	order := []*api.AfiSafi{full, bare}
+	fi, bi := 0, 1
+	if vBool("bare_family_first") {
+		order, fi, bi = []*api.AfiSafi{bare, full}, 1, 0
+	}
+	p := &api.Peer{Conf: &api.PeerConf{NeighborAddress: "10.0.0.2", PeerAsn: vU32("peer_as")}, AfiSafis: order}
+	c, err := newNeighborFromAPIStruct(p)
+	vAssert(err == nil && c != nil && len(c.AfiSafis) == 2, "a well-formed API peer is refused")
+	if err != nil || c == nil || len(c.AfiSafis) != 2 {
+		return
+	}
+	f, b := c.AfiSafis[fi], c.AfiSafis[bi]
+	vAssert(f.MpGracefulRestart.Config.Enabled && f.AddPaths.Config.Receive && f.AddPaths.Config.SendMax == sendMax && f.PrefixLimit.Config.MaxPrefixes == maxPfx &&
+		f.LongLivedGracefulRestart.Config.Enabled && f.LongLivedGracefulRestart.Config.RestartTime == llgrTime && len(f.ApplyPolicy.Config.ImportPolicyList) == 1,
+		"per-family settings of an API peer do not arrive in the native configuration")
+	vAssert(!b.MpGracefulRestart.Config.Enabled && !b.AddPaths.Config.Receive && b.AddPaths.Config.SendMax == 0 && b.PrefixLimit.Config.MaxPrefixes == 0 &&
+		!b.LongLivedGracefulRestart.Config.Enabled && b.LongLivedGracefulRestart.Config.RestartTime == 0 && len(b.ApplyPolicy.Config.ImportPolicyList) == 0,
+		"a family that sets no options inherits those of another family of the same API peer")
+	vAssert(c.Config.PeerAs == p.Conf.PeerAsn && f.Config.Enabled && b.Config.Enabled, "peer AS or family enablement lost in the conversion")
+	vReach("end")
+}
+
+// C18 (API path): a path in its API form - as AddPathStream receives it - converts to the native
+// path with the same prefix, path identifier, withdraw flag and attributes; the API form produced
+// for a listed path converts back to the same values.
+func VH_c18_api2path() {
+	prefix := vPrefix4(10, 1, 0, 0, 16)
+	nh, _ := bgp.NewPathAttributeNextHop(vAddr4(10, 0, 0, 9))
+	attrs := []bgp.PathAttributeInterface{bgp.NewPathAttributeOrigin(vU8("origin") % 3), nh, bgp.NewPathAttributeMultiExitDisc(vU32("med")),
+		bgp.NewPathAttributeAsPath([]bgp.AsPathParamInterface{bgp.NewAs4PathParam(bgp.BGP_ASPATH_ATTR_TYPE_SEQ, []uint32{vU32("as")})})}
+	native := &apiutil.Path{Family: bgp.RF_IPv4_UC, Nlri: prefix, Attrs: attrs, RemoteID: vU32("path_id"), Withdrawal: vBool("withdraw"), IsFromExternal: vBool("from_external")}
+	ap := toPathApi(native, false, false, false)
+	vAssert(ap != nil && ap.Identifier == native.RemoteID && ap.IsWithdraw == native.Withdrawal, "the API form of a path loses its identifier or withdraw flag")
+	back, err := api2apiutilPath(ap)
+	vAssert(err == nil && back != nil, "the API form of a path cannot be converted back")
+	if err == nil && back != nil {
+		vAssert(back.RemoteID == native.RemoteID && back.Withdrawal == native.Withdrawal && back.IsFromExternal == native.IsFromExternal && back.Nlri.String() == prefix.String() && len(back.Attrs) == len(attrs), "API path -> native path loses the identifier, a flag, the prefix or an attribute")
+	}
+	tp, err := api2Path(api.TableType_TABLE_TYPE_GLOBAL, ap, false)
+	vAssert(err == nil && tp != nil, "the API form of a path is refused by the streaming conversion")
+	if err != nil || tp == nil {
+		return
+	}
+	vAssert(tp.GetNlri().String() == prefix.String() && tp.IsWithdraw == native.Withdrawal, "the streaming conversion changes the prefix or the withdraw flag")
+	vAssert(tp.RemoteID() == native.RemoteID, "the streaming conversion drops the path identifier")
+	m, merr := tp.GetMed()
+	vAssert(merr == nil && m == attrs[2].(*bgp.PathAttributeMultiExitDisc).Value && len(tp.GetAsList()) == 1, "the streaming conversion changes an attribute")
 	vReach("end")
 }
